@@ -25,7 +25,7 @@ MANIFEST = {
 THEOREMS = ['C10.view_refines_partial', 'C10.view_step', 'C10.wf_step', 'C10.coupled_step',
             'C10.view_channels', 'C10.view_channel', 'C10.view_channel_gone',
             'C10.own_part_removes', 'C10.own_kick_removes', 'C10.reconnect_clears',
-            'C10.view_refines_fails_invex', 'C10.view_refines_fails_intarg',
+            'C10.view_refines_fails_intarg',
             'C10.separateModes_render',
             'C10.rfc1459_table_ok', 'C10.sigils_not_in_nicks', 'C10.sigil_table_ok', 'C10.mode_tables_ok',
             'C10.tracked_table_ok', 'C10.chan_table_ok', 'C10.setters_in_ok', 'C10.setters_out_ok']
@@ -530,7 +530,7 @@ def gen_change(r, S, cname, findings):
         return (add, 'l', r.choice(lims) if add or r.random() < 0.1 else None)
     if x < 0.95:
         return (add, r.choice(FLAGS), None if r.random() < 0.95 else 'x')
-    m = r.choice('eqI' if findings == 'invex' else 'eq')
+    m = r.choice('eqI')
     return (add, m, r.choice(BANS))
 
 def _int_ok(s):
@@ -601,7 +601,7 @@ def gen_hostile(r, S):
     me = S.botnick()
     pf = r.choice([S.cfg['server'], S.cfg['server'], me, 'x', '', 'a!b@c', 'a!b@c!d@e', '!b@c', 'a!@c', 'a!b@', 'a b!c@d', 'a!b@c\n',
                    '%s!limnoria@bot.host' % me, '%s!o@p' % casevar(r, me)] + [u.mask() for u in S.users.values()])
-    pool = ([me, casevar(r, me), '', '1', '2', '#chan', '#Chan', '&local', '#chan,#Dev', '#new', 'nochan', '@', '=', '*', '+o', '-o', '+ov', '+k',
+    pool = ([me, casevar(r, me), '', '1', '2', '#chan', '#Chan', '&local', '#chan,#Dev', '#new', '#chan ', ' #chan', '#a b', 'nochan', '@', '=', '*', '+o', '-o', '+ov', '+k',
              '-k', '+l', '-l', '+b', '+bb', '+stn', '+e', '+I', '+q', '-sb', '+o-v+k', 'alice', 'ALICE', 'Bob', 'alice,Bob', 'alice,%s,Bob' % me,
              '@alice +Bob', '@+alice!~al@host.one %Bob', '@ + @+', 'alice!u@h', '+alice!u@h', '@%+&~!x', '&~y', '!z', '10', '0123', '1_0', ' 7 ',
              '-3', 'x y', 'key', '*!*@evil.host', 'None'] + [u.nick for u in S.users.values()])
@@ -660,7 +660,7 @@ def gen_script(r, kind, length):
     cfg = gen_cfg(r, kind)
     S = PySrv(cfg)
     script = []
-    fmode = r.choice(['invex', 'intarg']) if kind == 'findings' else False
+    fmode = 'intarg' if kind == 'findings' else False
     for _ in range(length):
         if kind == 'hostile' and len(script) > 6 and r.random() < 0.6:
             script.append(('msg', gen_hostile(r, S)))
@@ -677,9 +677,7 @@ def _mode_diff_classes(d):
         b = d.botm.get(k, '<absent>'); v = d.srvm.get(k, '<absent>')
         if b == v:
             continue
-        if k == 'I' and v == '<absent>':
-            out.add('C10-invex-in-modes')           # a list mode recorded as if it were a single-valued mode
-        elif k in 'kl' and isinstance(v, str) and isinstance(b, str) and not canon_arg(v) and b == str(int(v)):
+        if k in 'kl' and isinstance(v, str) and isinstance(b, str) and not canon_arg(v) and b == str(int(v)):
             out.add('C10-mode-arg-int')             # separateModes ran int() over the argument
         else:
             out.add(None)
@@ -698,7 +696,7 @@ def classify(script, fails):
             classes |= _mode_diff_classes(d)
     if None in classes or not classes:
         return None
-    return 'C10-invex-in-modes' if 'C10-invex-in-modes' in classes else 'C10-mode-arg-int'
+    return 'C10-mode-arg-int'
 
 def shrink(real, cfg, script, pred):
     """delta debugging on the action list: smallest script (by removal) that still satisfies pred"""
